@@ -230,7 +230,9 @@ Inductive e2espec :=
 | XC15                                  (* the implementation terminated (no watchdog timeout) *)
 | XC17 (file : str) (line : Z) (col : option Z) (text : str)
 | XTwin (other : e2eobs) (with_labels : bool)
-| XTwinErrClass (other : e2eobs).       (* both fail or both succeed with equal output *)
+| XTwinErrClass (other : e2eobs)        (* both fail or both succeed with equal output *)
+| XFrontSays (ok : bool)                (* what the file API logged / the command line printed names the planted place (text search done by the harness) *)
+| XAnd (a b : e2espec).
 
 (** A front end that was killed by the watchdog is shipped as the impossible observation "status 99 with
     a success message": no model result equals it ([front_eqb]), it neither failed nor succeeded for
@@ -241,7 +243,7 @@ Definition not_hung (o : frontobs) : bool :=
   | _ => true
   end.
 
-Definition spec_ok (s : e2espec) (c : e2ecase) : bool :=
+Fixpoint spec_ok (s : e2espec) (c : e2ecase) : bool :=
   match s with
   | XNone => true
   | XC12 => c12_ok c
@@ -255,6 +257,8 @@ Definition spec_ok (s : e2espec) (c : e2ecase) : bool :=
       | EOk mem, Some f => file_matches (ec_format c) (ec_copier c) mem f
       | _, _ => true
       end
+  | XFrontSays ok => ok
+  | XAnd a b => spec_ok a c && spec_ok b c
   | XTwinErrClass other =>
       match ec_impl c, other with
       | EOk _, EOk _ => e2eobs_eqb (ec_impl c) other true
